@@ -57,6 +57,10 @@ def scenarios(tier, seed):
     for i, (w, p, mb) in enumerate([(32, 32, 2), (64, 32, 4)] if q else [(32, 32, 2), (64, 32, 4), (8, 8, 3), (32, 8, 2), (64, 64, 8)]):
         out.append(_sc("long-burst-%d-%d-mb%d" % (w, p, mb), w, p, s + 50 + i, base=BASES[i % 4], p_gap=0.0, p_burst=0.7, maxburst=mb,
                        long_bursts=True, runs=3 if q else 5, nops=70, lat=(6, 25), stall=0.2, bound=3000))
+    # ---- family "eager": FIFO-like native side (wdata.ready high at random whether or not a write command is outstanding)
+    for i, (w, p) in enumerate([(32, 32), (64, 32), (8, 32)] if q else [(32, 32), (64, 32), (8, 32), (8, 8), (32, 8)]):
+        out.append(_sc("eager-%d-%d" % (w, p), w, p, s + 500 + i, base=BASES[i % 4], eager=True, stall=0.75, p_gap=0.0,
+                       runs=2 if q else 5, nops=120))
     # ---- narrower Avalon (up-converter): single accesses
     for i, (w, p) in enumerate(ups):
         out.append(_sc("up-single-%d-%d" % (w, p), w, p, s + 40 + i, base=BASES[(i + 2) % 4], p_burst=0.0, runs=3 if q else 5))
